@@ -71,7 +71,7 @@ fn schedule_strategy(maxlen: usize) -> BoxedStrategy<Vec<u8>> {
 pub fn case_b_strategy(tier: Tier, freelists: &'static [(u32, u8)], c12: bool) -> BoxedStrategy<CaseB> {
     // the happens-before check gets the larger share of nested removal windows: orderings on the restore paths only
     // matter when two failed unlinks overlap
-    let nested_w: u32 = if c12 { 5 } else { 1 };
+    let nested_w: u32 = if c12 { 8 } else { 1 };
     let (maxops, maxthreads, schedlen) = if tier == Tier::Thorough { (10usize, 4usize, 160usize) } else { (6, 3, 64) };
     let extra_pre = prop::collection::vec(prop_oneof![3 => any::<u16>().prop_map(|h| Op::Drop { h }), 1 => (1u32..60).prop_map(|n| Op::AllocBytes { n: crate::case::Size::Abs(n), owned: false, via: 0 })], 0..=3);
     let spurious = if tier == Tier::Thorough { any::<bool>().boxed() } else { Just(false).boxed() };
@@ -100,8 +100,13 @@ pub fn case_b_strategy(tier: Tier, freelists: &'static [(u32, u8)], c12: bool) -
     // again under the scheduler; 2..4 further threads each ask for the size of a segment at a generated list position,
     // so that - with the mark pre-emption on - several threads sit between their mark and their unlink on
     // neighbouring nodes of one list at the same time (failed unlinks, restored node words, then a taker)
-    let seg = |hi: bool| (if hi { 200u8..=255 } else { 0u8..=255 }, prop_oneof![3 => Just(0i8), 2 => -4i8..=0, 1 => -9i8..=9], 0u8..4).prop_map(|(ix, d, payload)| POp::AllocSeg { ix, d, payload });
-    let follower = (seg(false), prop::collection::vec(prop_oneof![2 => seg(false), 1 => pop_strategy(c12)], 0..=2)).prop_map(|(first, rest)| {
+    // list positions: the head and the tail are where removal windows nest (a thread that keeps taking the head drains
+    // the list in front of a marked node; the tail is the segment thread 0 has just written and freed)
+    let seg = |hi: bool| {
+        let ix = if hi { (200u8..=255).boxed() } else { prop_oneof![2 => Just(0u8), 1 => 200u8..=255, 3 => 0u8..=255].boxed() };
+        (ix, prop_oneof![3 => Just(0i8), 2 => -4i8..=0, 1 => -9i8..=9], 0u8..4).prop_map(|(ix, d, payload)| POp::AllocSeg { ix, d, payload })
+    };
+    let follower = (seg(false), prop::collection::vec(prop_oneof![3 => seg(false), 1 => pop_strategy(c12)], 0..=3)).prop_map(|(first, rest)| {
         let mut v = vec![first];
         v.extend(rest);
         v
@@ -118,10 +123,10 @@ pub fn case_b_strategy(tier: Tier, freelists: &'static [(u32, u8)], c12: bool) -
         3 => templ,
         nested_w => nested,
     ];
-    (cfg_b(freelists), prelude_strategy(), extra_pre, progs, schedule_strategy(schedlen), prop_oneof![2 => Just(0u8), 3 => 1u8..=40], spurious)
-        .prop_map(|(cfg, mut pre, extra, progs, schedule, mark_preempt, spurious)| {
+    (cfg_b(freelists), prelude_strategy(), extra_pre, progs, schedule_strategy(schedlen), prop_oneof![2 => Just(0u8), 3 => 1u8..=40], spurious, any::<bool>())
+        .prop_map(|(cfg, mut pre, extra, progs, schedule, mark_preempt, spurious, park_all)| {
             pre.extend(extra);
-            CaseB { cfg, pre, progs, schedule, mark_preempt, spurious }
+            CaseB { cfg, pre, progs, schedule, mark_preempt, spurious, park_all: park_all && mark_preempt > 0 }
         })
         .boxed()
 }
@@ -138,6 +143,11 @@ fn simplify_b(c: &CaseB) -> Vec<CaseB> {
     if !c.schedule.is_empty() {
         let mut x = c.clone();
         x.schedule.truncate(c.schedule.len() / 2);
+        out.push(x);
+    }
+    if c.park_all {
+        let mut x = c.clone();
+        x.park_all = false;
         out.push(x);
     }
     out
@@ -203,7 +213,7 @@ engb_prop!(C07, "C07", LIST_FL, false, false, 64_000, 2_000_000,
     "Engine B programs (as C02, Optimistic and Pessimistic only) in which threads keep allocations forever or finish early, under uniform, bursty and mark-targeted schedules with a fair round-robin fallback. Oracle (bounded safety surrogate for the liveness statement): per thread, the number of consecutive scheduling points during which no thread changed any word; a thread is stalled above L = 8*(nodes+ops+2)*max_retries+64; violation iff every unfinished thread is stalled (the state can no longer change, so no call can return). A single operation exceeding 100*L steps while others still write is counted as inconclusive, not as a violation. Non-trivial = some thread observed a marked node or had a CAS fail",
     |r| r.saw_marked || r.cas_failures >= 1);
 
-engb_prop!(C12, "C12", ALL_FL, true, true, 240_000, 2_500_000,
+engb_prop!(C12, "C12", ALL_FL, true, true, 400_000, 3_000_000,
     "Engine B programs (2..3 threads, thorough 4; up to 5 in the nested-removal-window family: thread 0 pops the last segment, writes it and frees it again, 2..4 threads then ask for the sizes of segments at generated list positions while every marking thread is pre-empted right after its mark) extended with owned buffers created on one thread and sent to / dropped on another (harness mailbox carrying a vector clock), arena clones created and dropped by threads. A FastTrack-style detector is driven by the hook's event stream with the orderings the code actually passes: release clocks per atomic location (store Release sets, relaxed store clears, RMW joins and continues the release sequence), acquire on loads / failed CAS with an acquiring ordering; per-byte shadow of the last write and last reads for the owners' plain accesses, the arena's zeroing, the arena's atomic accesses inside arena memory and the final release of the backing memory. Race = two accesses to a common byte by different threads, at least one a write, at least one non-atomic, unordered. The original arena value is moved into thread 0 and the main thread keeps none, so the backing memory is released by whichever thread drops the last value, under the scheduler, and that release is checked as a plain write to every byte. Non-trivial = a byte range changed owner thread at least once, or the last arena value was dropped by a thread other than the creator's",
     |r| r.owner_changes >= 1 || r.classes.contains("last-drop-on-non-creator-thread"));
 
@@ -410,7 +420,7 @@ fn case_b_c04(tier: Tier) -> BoxedStrategy<CaseB> {
     let progs = prop::collection::vec(prop::collection::vec(pop, 1..=maxops), 2..=maxthreads);
     let pre = prop::collection::vec((1u32..40).prop_map(|n| Op::AllocBytes { n: crate::case::Size::Abs(n), owned: false, via: 0 }), 1..=3);
     (cfg_b(ALL_FL), pre, progs, schedule_strategy(schedlen), any::<bool>())
-        .prop_map(move |(cfg, pre, progs, schedule, spurious)| CaseB { cfg, pre, progs, schedule, mark_preempt: 0, spurious: spurious && tier == Tier::Thorough })
+        .prop_map(move |(cfg, pre, progs, schedule, spurious)| CaseB { cfg, pre, progs, schedule, mark_preempt: 0, spurious: spurious && tier == Tier::Thorough, park_all: false })
         .boxed()
 }
 
@@ -487,7 +497,7 @@ fn case_b_c03(tier: Tier) -> BoxedStrategy<CaseB> {
     // a few small allocations first so that the cursor starts at an arbitrary residue
     let pre = prop::collection::vec((1u32..24).prop_map(|n| Op::AllocBytes { n: crate::case::Size::Abs(n), owned: false, via: 0 }), 0..=2);
     (cfg_b(ALL_FL), pre, progs, schedule_strategy(schedlen), any::<bool>())
-        .prop_map(move |(cfg, pre, progs, schedule, spurious)| CaseB { cfg, pre, progs, schedule, mark_preempt: 0, spurious: spurious && tier == Tier::Thorough })
+        .prop_map(move |(cfg, pre, progs, schedule, spurious)| CaseB { cfg, pre, progs, schedule, mark_preempt: 0, spurious: spurious && tier == Tier::Thorough, park_all: false })
         .boxed()
 }
 
